@@ -34,6 +34,8 @@ func init() {
 		mutation{"load-empty-as-found", "acme/storage.go", "	if val == nil {\n		c.Logger.Debug(\"Load returned not found\", zap.String(\"key\", key))\n		return nil, fs.ErrNotExist\n	}", "	if val == nil {\n		c.Logger.Debug(\"Load returned not found\", zap.String(\"key\", key))\n	}", "not-exist"},
 		mutation{"raw-key", "acme/storage.go", "	return c.KV.Delete(ctx, []byte(kvKeyName(key)))", "	return c.KV.Delete(ctx, []byte(key))", "key-namespace"},
 		mutation{"list-prefix-keys-too", "acme/storage.go", "			if key.GetType() != protocol.KeyComposite_SIMPLE {\n				continue\n			}\n			if !strings.HasPrefix(string(key.GetKey()), prefix) {\n				continue\n			}\n			newKey = strings.TrimPrefix(string(key.GetKey()), kvKeyPrefix)", "			if !strings.HasPrefix(string(key.GetKey()), prefix) {\n				continue\n			}\n			newKey = strings.TrimPrefix(string(key.GetKey()), kvKeyPrefix)", "list"},
+		mutation{"lock-by-if-chain", "acme/storage.go", "		switch err {\n		case chord.ErrKVLeaseConflict:\n			c.Logger.Debug(\"Lease acquire conflict, retrying\", zap.String(\"key\", key))\n			<-time.After(c.pollInterval)\n			continue\n		case nil:\n			return c.startLeaseRenewal(key, token)\n		default:\n			c.Logger.Error(\"Error acquiring lease\", zap.String(\"key\", key), zap.Error(err))\n			return err\n		}", "		if err == nil {\n			return c.startLeaseRenewal(key, token)\n		}\n		if err != chord.ErrKVLeaseConflict {\n			c.Logger.Error(\"Error acquiring lease\", zap.String(\"key\", key), zap.Error(err))\n			return err\n		}\n		c.Logger.Debug(\"Lease acquire conflict, retrying\", zap.String(\"key\", key))\n		<-time.After(c.pollInterval)", "!lock"},
+		mutation{"lock-if-chain-retries-all", "acme/storage.go", "		switch err {\n		case chord.ErrKVLeaseConflict:\n			c.Logger.Debug(\"Lease acquire conflict, retrying\", zap.String(\"key\", key))\n			<-time.After(c.pollInterval)\n			continue\n		case nil:\n			return c.startLeaseRenewal(key, token)\n		default:\n			c.Logger.Error(\"Error acquiring lease\", zap.String(\"key\", key), zap.Error(err))\n			return err\n		}", "		if err == nil {\n			return c.startLeaseRenewal(key, token)\n		}\n		if err == chord.ErrKVLeaseExpired {\n			c.Logger.Error(\"Error acquiring lease\", zap.String(\"key\", key), zap.Error(err))\n			return err\n		}\n		c.Logger.Debug(\"Lease acquire conflict, retrying\", zap.String(\"key\", key))\n		<-time.After(c.pollInterval)", "lock"},
 		mutation{"equivalent-cutprefix", "acme/storage.go", "			if !strings.HasPrefix(string(key.GetKey()), prefix) {\n				continue\n			}\n			sub := strings.TrimPrefix(string(key.GetKey()), prefix)", "			sub, under := strings.CutPrefix(string(key.GetKey()), prefix)\n			if !under {\n				continue\n			}", "!separator-aligned"},
 	)
 }
@@ -320,31 +322,72 @@ func runC49(c *Ctx) {
 		c.Ob("lock", "Lock#renewal-only-after-acquire-ok", call.Pos(), len(acq) == 1 && fs.Has(func(fa *Fact) bool { return fa.Kind == FCallOK && fa.Call == acq[0] }) && strings.HasSuffix(lk.Prov(call.Args[1]), ".Acquire()#0"), "the renewal goroutine starts only after the lease was acquired, with that token")
 	}
 	// loop continues only under ErrKVLeaseConflict
+	// decided from the path facts at each retry / return, so a switch on the error, an
+	// if-chain with == and errors.Is are read alike
 	ncont := 0
+	isAcqErr := func(e ast.Expr) bool { return len(acq) == 1 && strings.HasSuffix(lk.Prov(e), ".Acquire()#1") }
+	const conflict = "global:spec/chord.ErrKVLeaseConflict"
+	conflictAt := func(fs *FactSet) bool {
+		return fs.Cmp(func(e, tag ast.Expr, truth bool, fa *Fact) bool {
+			if tag != nil {
+				return truth && isAcqErr(tag) && lk.Prov(e) == conflict
+			}
+			switch x := e.(type) {
+			case *ast.BinaryExpr:
+				eq := x.Op == token.EQL && truth || x.Op == token.NEQ && !truth
+				return eq && (isAcqErr(x.X) && lk.Prov(x.Y) == conflict || isAcqErr(x.Y) && lk.Prov(x.X) == conflict)
+			case *ast.CallExpr:
+				return truth && lk.IsCall(x, "errors.Is") && isAcqErr(x.Args[0]) && lk.Prov(x.Args[1]) == conflict
+			}
+			return false
+		})
+	}
 	ast.Inspect(lk.Body, func(n ast.Node) bool {
-		cc, ok := n.(*ast.CaseClause)
-		if !ok {
-			return true
-		}
-		for _, s := range cc.Body {
-			if br, ok := s.(*ast.BranchStmt); ok && br.Tok == token.CONTINUE {
-				ncont++
-				okC := len(cc.List) == 1 && lk.Prov(cc.List[0]) == "global:spec/chord.ErrKVLeaseConflict"
-				c.Ob("lock", "Lock#retries-only-on-lease-conflict", br.Pos(), okC, "Lock polls again only when the lease is held by someone else; every other error is returned")
-			}
-		}
-		if cc.List == nil {
-			ret := false
-			for _, s := range cc.Body {
-				if r, ok := s.(*ast.ReturnStmt); ok && len(r.Results) == 1 && !isNilIdent(lk.Info, r.Results[0]) {
-					ret = true
-				}
-			}
-			c.Ob("lock", "Lock#other-errors-returned", cc.Pos(), ret, "an unexpected acquire error ends Lock with that error")
+		if br, ok := n.(*ast.BranchStmt); ok && br.Tok == token.CONTINUE {
+			ncont++
+			c.Ob("lock", "Lock#retries-only-on-lease-conflict", br.Pos(), conflictAt(lk.FactsAt(br)), "Lock polls again only when the lease is held by someone else; every other error is returned")
 		}
 		return true
 	})
-	c.Floor("Lock retry sites", ncont, 1)
+	// no silent retry either: the loop body cannot fall off its end back to Acquire with
+	// an error other than the conflict in hand
+	nerr := 0
+	for _, r := range lk.Returns() {
+		if len(r.Results) == 1 && isAcqErr(r.Results[0]) {
+			nerr++
+		}
+	}
+	c.Ob("lock", "Lock#other-errors-returned", lk.Decl.Pos(), nerr >= 1, "an unexpected acquire error ends Lock with that error")
+	if len(acq) == 1 {
+		// from the failed acquire, every way back to the acquire passes the conflict test
+		back, _ := lk.Reach(acq[0], func(n ast.Node) bool { return containsNode(n, acq[0]) }, func(b *cfgBlock, si int) bool {
+			for _, at := range lk.edgeAtoms(b, si) {
+				if at.tag != nil && at.truth && isAcqErr(at.tag) && (lk.Prov(at.e) == conflict || isNilIdent(lk.Info, at.e)) {
+					return true
+				}
+				switch x := at.e.(type) {
+				case *ast.BinaryExpr:
+					eq := x.Op == token.EQL && at.truth || x.Op == token.NEQ && !at.truth
+					if eq && (isAcqErr(x.X) || isAcqErr(x.Y)) && (lk.Prov(x.Y) == conflict || lk.Prov(x.X) == conflict || isNilIdent(lk.Info, x.X) || isNilIdent(lk.Info, x.Y)) {
+						return true
+					}
+				case *ast.CallExpr:
+					if at.truth && lk.IsCall(x, "errors.Is") && isAcqErr(x.Args[0]) && lk.Prov(x.Args[1]) == conflict {
+						return true
+					}
+				}
+			}
+			return false
+		})
+		loops := false
+		for _, n := range back {
+			if containsNode(n, acq[0]) {
+				loops = true
+			}
+		}
+		c.Ob("lock", "Lock#no-retry-path-for-other-errors", acq[0].Pos(), !loops, "once the edges on which the error is nil or the lease conflict are removed, Acquire is not reachable again: no other error is retried")
+	}
+	_ = ncont // a retry may also be the fall-through of the loop body: covered by the edge-cut rule above
 	// classification with == is safe only for a bare sentinel: the KV behind it is the retry wrapper / LocalNode / RemoteNode,
 	// all of which return the mapped bare sentinel (C14); recorded as an assumption
 	c.Assume("errors from chord.KV.Acquire reach ChordStorage.Lock as bare sentinels (C14: RemoteNode maps through ErrorMapper; the retry wrapper uses LastErrorOnly)")
